@@ -300,6 +300,10 @@ func genC05(g engine.G) *engine.Case {
 	if g.Pct(8) {
 		sc = engine.GenWide(g, o)
 	}
+	if g.Pct(25) {
+		// premise (b): acyclic-by-construction multi-input sets with diamonds
+		sc = engine.GenLayered(g, o)
+	}
 	return &engine.Case{Sc: sc, Reps: 10}
 }
 
